@@ -1,8 +1,8 @@
 (* C04, C06, C07, C08: theorems about the model of DlmsConnection, for an arbitrary block function E
    (with 16-byte output where decryption is concerned), hence for AES. *)
-From Dlms Require Import Base Sweep FieldsModel AxdrModel XdlmsModel XdlmsSpec AcseModel AssocModel Aes Gcm SecurityModel SecurityProofs ConnModel.
+From Dlms Require Import Base Sweep FieldsModel AxdrModel XdlmsModel XdlmsSpec XdlmsProofs AcseModel AssocModel Aes Gcm SecurityModel SecurityProofs ConnModel.
 From Dlms.Gen Require GenApdu GenAcse GenDlmsState.
-From Coq Require Import ZifyBool ZifyN.
+From Coq Require Import ZifyBool ZifyN FinFun.
 
 Section PROOFS.
   Variable E : bytes -> bytes -> bytes.
@@ -72,3 +72,468 @@ Section PROOFS.
     destruct m2 as [a|q|e|r|r]; cbn; try congruence. destruct (e_user e) as [[]|]; cbn; congruence.
   Qed.
 End PROOFS.
+
+(* ================= C04 ================= *)
+Section C04.
+  Variable E : bytes -> bytes -> bytes.
+
+  (* both keys configured (and not empty) *)
+  Definition keyed (k : cfg) (ek ak : bytes) : Prop := truthy_key (k_ek k) = Some ek /\ truthy_key (k_ak k) = Some ak.
+  Definition cipher_sc (k : cfg) : sc := (k_suite k, true, true, false, false).
+
+  Lemma keyed_protection k ek ak : keyed k ek ak -> use_protection k = true /\ security_control k = cipher_sc k.
+  Proof.
+    intros [H1 H2]. unfold use_protection, security_control, cipher_sc. rewrite H1, H2.
+    unfold truthy_key, truthy in H1. destruct (k_ek k) as [[|]|]; try discriminate. split; reflexivity.
+  Qed.
+  Lemma encrypt_inv k c pt ct ic c' : dlms_encrypt E k c pt = (Ok (ct, ic), c') ->
+    exists ek ak, keyed k ek ak /\ sec_encrypt E (security_control k) (k_title k) (c_cic c) ek ak pt = Ok ct /\ ic = c_cic c /\
+                  c' = set_cic c (c_cic c + 1).
+  Proof.
+    unfold dlms_encrypt. destruct (truthy_key (k_ek k)) as [ek|] eqn:E1; [|discriminate].
+    destruct (truthy_key (k_ak k)) as [ak|] eqn:E2; [|discriminate].
+    destruct (sec_encrypt _ _ _ _ _ _ _) as [x|] eqn:E3; [|discriminate]. intros [= <- <- <-].
+    exists ek, ak. repeat split; assumption.
+  Qed.
+
+  (* what can come out of send on a connection that uses protection *)
+  Inductive ciphered_output (k : cfg) (c : cst) : msg -> bytes -> Prop :=
+  | out_service a pt ct ek ak b :
+      keyed k ek ak -> apdu_to_bytes a = Ok pt ->
+      sec_encrypt E (cipher_sc k) (k_title k) (c_cic c) ek ak pt = Ok ct ->
+      apdu_to_bytes (GeneralGlobalCipher (k_title k) (cipher_sc k) (c_cic c) ct) = Ok b ->
+      ciphered_output k c (MX a) b
+  | out_aarq q pt ct ek ak b q' :
+      keyed k ek ak -> apdu_to_bytes (q_user q) = Ok pt ->
+      sec_encrypt E (cipher_sc k) (k_title k) (c_cic c) ek ak pt = Ok ct ->
+      q_user q' = GlobalCipherInitiateRequest (cipher_sc k) (c_cic c) ct -> aarq_to_bytes q' = Ok b ->
+      ciphered_output k c (MAarq q) b
+  | out_rlrq r u pt ct ek ak b :
+      r_user r = Some u -> keyed k ek ak -> apdu_to_bytes u = Ok pt ->
+      sec_encrypt E (cipher_sc k) (k_title k) (c_cic c) ek ak pt = Ok ct ->
+      rlrq_to_bytes {| r_reason := r_reason r; r_user := Some (GlobalCipherInitiateRequest (cipher_sc k) (c_cic c) ct) |} = Ok b ->
+      ciphered_output k c (MRlrq r) b
+  | out_rlrq_bare r b : r_user r = None -> rlrq_to_bytes r = Ok b -> ciphered_output k c (MRlrq r) b.
+
+  Theorem send_is_ciphered k c m b c' : use_protection k = true -> dlms_send E k c m = (Ok b, c') -> ciphered_output k c m b.
+  Proof.
+    intros Hp. unfold dlms_send. destruct (k_pre k && _); [discriminate|].
+    destruct (process_event (c_state c) (msg_kind m)) as [s'|]; [|discriminate]. rewrite Hp.
+    destruct (protect E k (set_state c s') m) as [[m'|] c2] eqn:P; [|discriminate]. intros [= Hb <-].
+    unfold protect in P. destruct m as [a|q|e|r|r]; try discriminate.
+    - destruct (apdu_to_bytes a) as [pt|] eqn:A; [|discriminate].
+      destruct (dlms_encrypt E k (set_state c s') pt) as [[[ct ic]|] c3] eqn:En; [|discriminate]. injection P as <- <-.
+      destruct (encrypt_inv _ _ _ _ _ _ En) as (ek & ak & K & S & -> & _). destruct (keyed_protection _ _ _ K) as [_ Sc].
+      rewrite Sc in *. cbn [c_cic set_state] in *. cbn [msg_to_bytes] in Hb. eapply out_service; eassumption.
+    - destruct (apdu_to_bytes (q_user q)) as [pt|] eqn:A; [|discriminate].
+      destruct (dlms_encrypt E k (set_state c s') pt) as [[[ct ic]|] c3] eqn:En; [|discriminate]. injection P as <- <-.
+      destruct (encrypt_inv _ _ _ _ _ _ En) as (ek & ak & K & S & -> & _). destruct (keyed_protection _ _ _ K) as [_ Sc].
+      rewrite Sc in *. cbn [c_cic set_state] in *. cbn [msg_to_bytes] in Hb. eapply out_aarq; try eassumption. reflexivity.
+    - destruct (r_user r) as [u|] eqn:U.
+      + destruct (apdu_to_bytes u) as [pt|] eqn:A; [|discriminate].
+        destruct (dlms_encrypt E k (set_state c s') pt) as [[[ct ic]|] c3] eqn:En; [|discriminate]. injection P as <- <-.
+        destruct (encrypt_inv _ _ _ _ _ _ En) as (ek & ak & K & S & -> & _). destruct (keyed_protection _ _ _ K) as [_ Sc].
+        rewrite Sc in *. cbn [c_cic set_state] in *. cbn [msg_to_bytes] in Hb. eapply out_rlrq; eassumption.
+      + injection P as <- <-. cbn [msg_to_bytes] in Hb. apply out_rlrq_bare; assumption.
+  Qed.
+
+  (* the layout of a ciphered service APDU and that its content decrypts to the plain encoding *)
+  Lemma sec_encrypt_inv x title ic key ak pt ct : sec_encrypt E x title ic key ak pt = Ok ct ->
+    (sc_encrypted x || sc_authenticated x = true) /\ length title = 8%nat /\ ic < 2 ^ 32 /\ keys_ok x key ak.
+  Proof.
+    unfold sec_encrypt, prepare. destruct (negb (sc_encrypted x) && negb (sc_authenticated x)) eqn:F; [discriminate|].
+    destruct (Nat.eqb (length title) 8) eqn:T; [|discriminate]. cbn [negb].
+    unfold to_bytes_be. destruct (ic <? 256 ^ N.of_nat 4) eqn:I; [|discriminate]. cbn [bind].
+    destruct (validate_key (sc_suite x) key) as [[]|] eqn:K1; [|discriminate]. cbn [bind].
+    destruct (validate_key (sc_suite x) ak) as [[]|] eqn:K2; [|discriminate]. cbn [bind].
+    destruct (gcm_encrypt _ _ _ _) as [c t] eqn:G. intros [= <-].
+    split. { destruct (sc_encrypted x), (sc_authenticated x); try reflexivity; discriminate. }
+    split. { apply Nat.eqb_eq. exact T. }
+    split. { apply N.ltb_lt in I. exact I. }
+    split; assumption.
+  Qed.
+
+  (* a service APDU leaves as general-glo-ciphering with the client title, the security control byte 0x30 + suite and the
+     counter used, in the standard layout; its content is the GCM protection of the plain encoding and decrypts to it *)
+  Theorem service_apdu_layout k c a b c' : (forall key blk, length (E key blk) = 16%nat) ->
+    use_protection k = true -> dlms_send E k c (MX a) = (Ok b, c') ->
+    exists ek ak pt ct, keyed k ek ak /\ apdu_to_bytes a = Ok pt /\
+      sec_encrypt E (cipher_sc k) (k_title k) (c_cic c) ek ak pt = Ok ct /\
+      sec_decrypt E (cipher_sc k) (k_title k) (c_cic c) ek ak ct = Ok pt /\
+      (len ct + 5 < 4294967296 -> b = [219; 8] ++ k_title k ++ std_ciphered (cipher_sc k) (c_cic c) ct) /\
+      c_cic c' = c_cic c + 1.
+  Proof.
+    intros HE Hp H. pose proof (send_is_ciphered _ _ _ _ _ Hp H) as O. inversion O as [a0 pt ct ek ak b0 K A S G| | |]; subst.
+    exists ek, ak, pt, ct. destruct (sec_encrypt_inv _ _ _ _ _ _ _ S) as (F & T & I & KO).
+    split; [exact K|]. split; [exact A|]. split; [exact S|].
+    split. { apply (unprotect_protect E HE); assumption. }
+    split.
+    - intros L.
+      assert (W : wf_apdu (GeneralGlobalCipher (k_title k) (cipher_sc k) (c_cic c) ct) = true).
+      { cbn [wf_apdu cipher_sc sc_ok]. unfold u32_ok, content_ok, len. rewrite T.
+        destruct KO as [K1 _]. unfold validate_key, key_length in K1. cbn [sc_suite cipher_sc] in K1.
+        destruct (N.leb_spec (k_suite k) 2) as [_|Hs].
+        - change (2 ^ 32) with 4294967296 in I. apply N.ltb_lt in I. rewrite I.
+          replace (N.of_nat (length ct) + 5 <? 4294967296) with true by (symmetry; apply N.ltb_lt; exact L). reflexivity.
+        - destruct (N.eqb_spec (k_suite k) 0); [lia|]. destruct (N.eqb_spec (k_suite k) 1); [lia|]. destruct (N.eqb_spec (k_suite k) 2); [lia|discriminate]. }
+      pose proof (XdlmsProofs.apdu_encode_std _ W) as Es. rewrite Es in G. injection G as <-.
+      cbn [std_apdu app]. unfold octets at 1. unfold len at 1. rewrite T. reflexivity.
+    - unfold dlms_send in H. destruct (k_pre k && _); [discriminate|].
+      destruct (process_event (c_state c) (msg_kind (MX a))) as [s'|]; [|discriminate]. rewrite Hp in H.
+      unfold protect in H. rewrite A in H.
+      destruct (dlms_encrypt E k (set_state c s') pt) as [[[ct' ic]|] c3] eqn:En; [|discriminate].
+      destruct (encrypt_inv _ _ _ _ _ _ En) as (_ & _ & _ & _ & _ & ->). injection H as _ <-. reflexivity.
+  Qed.
+
+  (* an unciphered APDU arriving on a connection that uses protection is refused and changes nothing: it is never delivered *)
+  Theorem plaintext_refused k c buf a : use_protection k = true -> msg_from_bytes buf = Ok (MX a) ->
+    (forall t s ic x, a <> GeneralGlobalCipher t s ic x) -> dlms_next_event E k c buf = (Err ERefused, c).
+  Proof.
+    intros Hp Hm Hn. unfold dlms_next_event, dlms_next_event_raw. rewrite Hm. cbn [bind]. rewrite Hp.
+    unfold unprotect. destruct a; try reflexivity. exfalso. eapply Hn. reflexivity.
+  Qed.
+  (* protection in use but a key missing: nothing that has parameters to protect leaves the connection *)
+  Theorem missing_key_sends_nothing k c m b c' : use_protection k = true -> (truthy_key (k_ek k) = None \/ truthy_key (k_ak k) = None) ->
+    dlms_send E k c m = (Ok b, c') -> exists r, m = MRlrq r /\ r_user r = None.
+  Proof.
+    intros Hp Hk H. pose proof (send_is_ciphered _ _ _ _ _ Hp H) as O.
+    inversion O as [? ? ? ek ak ? [K1 K2]|? ? ? ek ak ? ? [K1 K2]|? ? ? ? ek ak ? ? [K1 K2]|r ? U]; subst;
+      try (destruct Hk as [Hk|Hk]; congruence). exists r. split; [reflexivity|exact U].
+  Qed.
+End C04.
+
+(* ================= C06 ================= *)
+Section C06.
+  Variable E : bytes -> bytes -> bytes.
+
+  (* ---- the client's side: every use of the global key consumes the counter it uses ---- *)
+  (* the counter a step feeds to the AES-GCM primitive, if it gets that far: dlms_encrypt / the GMAC of the HLS reply are the
+     only callers, they use c_cic c, and they succeed exactly when the counter advances *)
+  Definition nonce_used (k : cfg) (c : cst) (o : cop) : option N :=
+    if c_cic (snd (step E k c o)) =? c_cic c then None else Some (c_cic c).
+
+  Lemma encrypt_counter k c pt r c' : dlms_encrypt E k c pt = (r, c') ->
+    (exists ct, r = Ok (ct, c_cic c) /\ c_cic c' = c_cic c + 1) \/ (is_ok r = false /\ c' = c).
+  Proof.
+    unfold dlms_encrypt. destruct (truthy_key (k_ek k)); [|intros [= <- <-]; right; split; reflexivity].
+    destruct (truthy_key (k_ak k)); [|intros [= <- <-]; right; split; reflexivity].
+    destruct (sec_encrypt _ _ _ _ _ _ _) as [ct|]; intros [= <- <-]; [left; exists ct; split; reflexivity|right; split; reflexivity].
+  Qed.
+  Lemma protect_counter k c m r c' : protect E k c m = (r, c') -> c_cic c' = c_cic c \/ c_cic c' = c_cic c + 1.
+  Proof.
+    unfold protect. destruct m as [a|q|e|r0|r0]; try (intros [= _ <-]; left; reflexivity).
+    - destruct (apdu_to_bytes a) as [l|]; [|intros [= _ <-]; left; reflexivity].
+      destruct (dlms_encrypt E k c l) as [[[ct ic]|] c3] eqn:En; intros [= _ <-];
+        destruct (encrypt_counter _ _ _ _ _ En) as [(x & _ & H)|[_ ->]]; tauto.
+    - destruct (apdu_to_bytes (q_user q)) as [l|]; [|intros [= _ <-]; left; reflexivity].
+      destruct (dlms_encrypt E k c l) as [[[ct ic]|] c3] eqn:En; intros [= _ <-];
+        destruct (encrypt_counter _ _ _ _ _ En) as [(x & _ & H)|[_ ->]]; tauto.
+    - destruct (r_user r0) as [a|]; [|intros [= _ <-]; left; reflexivity].
+      destruct (apdu_to_bytes a) as [l|]; [|intros [= _ <-]; left; reflexivity].
+      destruct (dlms_encrypt E k c l) as [[[ct ic]|] c3] eqn:En; intros [= _ <-];
+        destruct (encrypt_counter _ _ _ _ _ En) as [(x & _ & H)|[_ ->]]; tauto.
+  Qed.
+  Lemma step_counter k c o : c_cic (snd (step E k c o)) = c_cic c \/ c_cic (snd (step E k c o)) = c_cic c + 1.
+  Proof.
+    destruct o as [m|b|]; cbn [step].
+    - destruct (dlms_send E k c m) as [r c'] eqn:S. cbn [snd]. unfold dlms_send in S.
+      destruct (k_pre k && _); [injection S as _ <-; left; reflexivity|].
+      destruct (process_event (c_state c) (msg_kind m)) as [s'|]; [|injection S as _ <-; left; reflexivity].
+      destruct (use_protection k); [|injection S as _ <-; left; reflexivity].
+      destruct (protect E k (set_state c s') m) as [[m'|] c2] eqn:P; injection S as _ <-; apply (protect_counter _ _ _ _ _ P).
+    - pose proof (next_event_keeps_client_counter E k c b) as H. destruct (dlms_next_event E k c b). cbn [snd] in *. left. exact H.
+    - destruct (dlms_hls_reply E k c) as [r c'] eqn:S. cbn [snd]. unfold dlms_hls_reply in S.
+      destruct (truthy (c_mchallenge c)); [|injection S as _ <-; left; reflexivity].
+      destruct (truthy_key (k_ek k)); [|injection S as _ <-; left; reflexivity].
+      destruct (truthy_key (k_ak k)); [|injection S as _ <-; left; reflexivity].
+      destruct (c_auth c) as [[|p]|]; try (injection S as _ <-; left; reflexivity).
+      repeat (destruct p as [p|p|]; try (injection S as _ <-; left; reflexivity)).
+      match type of S with (match ?x with _ => _ end) = _ => destruct x end; injection S as _ <-; [right|left]; reflexivity.
+  Qed.
+
+  (* the nonces used over a whole session: start, start+1, start+2, ... - never one twice *)
+  Fixpoint nonces (k : cfg) (c : cst) (ops : list cop) : list N :=
+    match ops with
+    | [] => []
+    | o :: r => match nonce_used k c o with Some n => [n] | None => [] end ++ nonces k (snd (step E k c o)) r
+    end.
+  Theorem client_nonces_consecutive k ops : forall c,
+    nonces k c ops = map (fun i => c_cic c + N.of_nat i) (seq 0 (length (nonces k c ops))) /\
+    c_cic (snd (run E k c ops)) = c_cic c + N.of_nat (length (nonces k c ops)).
+  Proof.
+    induction ops as [|o r IH]; intros c; cbn [nonces run].
+    - split; [reflexivity|cbn; lia].
+    - destruct (step E k c o) as [x c1] eqn:S. cbn [snd]. destruct (IH c1) as [I1 I2].
+      destruct (run E k c1 r) as [xs c2] eqn:R. cbn [snd] in *.
+      unfold nonce_used. rewrite S. cbn [snd]. pose proof (step_counter k c o) as Hc. rewrite S in Hc. cbn [snd] in Hc.
+      destruct (N.eqb_spec (c_cic c1) (c_cic c)) as [Heq|Hne].
+      + cbn [app]. rewrite Heq in *. split; assumption.
+      + destruct Hc as [Hc|Hc]; [contradiction|]. cbn [app length seq map]. rewrite N.add_0_r. split.
+        * f_equal. rewrite I1 at 1. rewrite <- seq_shift, map_map. apply map_ext. intros i. rewrite Hc. lia.
+        * rewrite I2, Hc. lia.
+  Qed.
+  Corollary client_nonces_fresh k c ops : NoDup (nonces k c ops).
+  Proof.
+    destruct (client_nonces_consecutive k ops c) as [H _]. rewrite H. apply FinFun.Injective_map_NoDup; [|apply seq_NoDup].
+    intros i j Hij. lia.
+  Qed.
+
+  (* ---- the meter's side: an APDU is accepted only above every counter accepted before ---- *)
+  (* the invocation counter a received APDU carries in its ciphered part *)
+  Definition wire_counter (buf : bytes) : option N :=
+    match msg_from_bytes buf with
+    | Ok (MX (GeneralGlobalCipher _ _ ic _)) => Some ic
+    | Ok (MAare e) => match e_user e with Some (GlobalCipherInitiateResponse _ ic _) => Some ic | _ => None end
+    | Ok (MRlre r) => match r_user r with Some (GlobalCipherInitiateResponse _ ic _) => Some ic | _ => None end
+    | _ => None
+    end.
+  Lemma set_state_mic c s : c_mic (set_state c s) = c_mic c. Proof. reflexivity. Qed.
+
+  Theorem accepted_counter k c buf m c' : dlms_next_event E k c buf = (Ok m, c') ->
+    if use_protection k then
+      match wire_counter buf with
+      | Some ic => c_mic c < ic /\ c_mic c' = ic
+      | None => c_mic c' = c_mic c
+      end
+    else c_mic c' = c_mic c.
+  Proof.
+    unfold dlms_next_event. destruct (dlms_next_event_raw E k c buf) as [[m1 c1]|x] eqn:R; [|discriminate]. intros [= <- <-].
+    unfold dlms_next_event_raw in R. unfold wire_counter. destruct (msg_from_bytes buf) as [m0|]; [|discriminate]. cbn [bind] in R.
+    set (c0 := match m0 with MAare e => set_meter_info c (e_title e) (e_auth e) (e_value e) | _ => c end) in R.
+    assert (H0 : c_mic c0 = c_mic c) by (unfold c0; destruct m0; reflexivity).
+    assert (Hfin : forall m2 c2, match assoc_recv (k_pre k) (c_state c2) (msg_event E k c2 m2) with
+                   | (Err e, _) => Err e
+                   | (Ok tt, s') =>
+                       Ok (m2, match m2 with
+                               | MAare e => match e_user e with
+                                            | Some (InitiateResponse conf max_pdu _ _) => set_negotiated (set_state c2 s') conf max_pdu
+                                            | _ => set_state c2 s' end
+                               | _ => set_state c2 s' end)
+                   end = Ok (m1, c1) -> c_mic c1 = c_mic c2).
+    { intros m2 c2. destruct (assoc_recv _ _ _) as [[[]|] s']; [|discriminate]. intros [= _ <-].
+      destruct m2 as [a|q|e|r|r]; try reflexivity. destruct (e_user e) as [[]|]; reflexivity. }
+    destruct (use_protection k).
+    - unfold unprotect, check_counter in R. destruct m0 as [a|q|e|r|r]; try discriminate.
+      + destruct a; try discriminate. destruct (N.leb_spec counter (c_mic c0)); [discriminate|]. cbn [bind] in R.
+        destruct (dlms_decrypt _ _ _ _); [|discriminate]. cbn [bind] in R. destruct (msg_from_bytes _); [|discriminate]. cbn [bind] in R.
+        apply Hfin in R. cbn in R. split; [lia|exact R].
+      + destruct (e_user e) as [[]|] eqn:U; try (cbn [bind] in R; apply Hfin in R; lia).
+        destruct (N.leb_spec counter (c_mic c0)); [discriminate|]. cbn [bind] in R.
+        destruct (dlms_decrypt _ _ _ _); [|discriminate]. cbn [bind] in R. destruct (initiate_response_from_bytes _); [|discriminate]. cbn [bind] in R.
+        apply Hfin in R. cbn in R. split; [lia|exact R].
+      + destruct (r_user r) as [[]|] eqn:U; try (cbn [bind] in R; apply Hfin in R; lia).
+        destruct (N.leb_spec counter (c_mic c0)); [discriminate|]. cbn [bind] in R.
+        destruct (dlms_decrypt _ _ _ _); [|discriminate]. cbn [bind] in R. destruct (initiate_response_from_bytes _); [|discriminate]. cbn [bind] in R.
+        apply Hfin in R. cbn in R. split; [lia|exact R].
+    - cbn [bind] in R. apply Hfin in R. lia.
+  Qed.
+
+  (* over a whole session: the counters of the accepted ciphered APDUs are strictly increasing, all above the starting value -
+     a recorded APDU delivered again, or an older one, is never accepted *)
+  Definition accepted_here (k : cfg) (c : cst) (o : cop) : option N :=
+    match o with
+    | ORecv b => match dlms_next_event E k c b with (Ok _, _) => wire_counter b | _ => None end
+    | _ => None
+    end.
+  Fixpoint accepted (k : cfg) (c : cst) (ops : list cop) : list N :=
+    match ops with
+    | [] => []
+    | o :: r => match accepted_here k c o with Some n => [n] | None => [] end ++ accepted k (snd (step E k c o)) r
+    end.
+  Fixpoint increasing_from (lo : N) (l : list N) : Prop :=
+    match l with [] => True | x :: r => lo < x /\ increasing_from x r end.
+  Lemma encrypt_mic k c pt r c' : dlms_encrypt E k c pt = (r, c') -> c_mic c' = c_mic c.
+  Proof.
+    unfold dlms_encrypt. destruct (truthy_key (k_ek k)); [|intros [= _ <-]; reflexivity].
+    destruct (truthy_key (k_ak k)); [|intros [= _ <-]; reflexivity].
+    destruct (sec_encrypt _ _ _ _ _ _ _); intros [= _ <-]; reflexivity.
+  Qed.
+  Lemma protect_mic k c m r c' : protect E k c m = (r, c') -> c_mic c' = c_mic c.
+  Proof.
+    unfold protect. destruct m as [a|q|e|r0|r0]; try (intros [= _ <-]; reflexivity).
+    - destruct (apdu_to_bytes a) as [l|]; [|intros [= _ <-]; reflexivity].
+      destruct (dlms_encrypt E k c l) as [[[ct ic]|] c3] eqn:En; intros [= _ <-]; apply (encrypt_mic _ _ _ _ _ En).
+    - destruct (apdu_to_bytes (q_user q)) as [l|]; [|intros [= _ <-]; reflexivity].
+      destruct (dlms_encrypt E k c l) as [[[ct ic]|] c3] eqn:En; intros [= _ <-]; apply (encrypt_mic _ _ _ _ _ En).
+    - destruct (r_user r0) as [a|]; [|intros [= _ <-]; reflexivity].
+      destruct (apdu_to_bytes a) as [l|]; [|intros [= _ <-]; reflexivity].
+      destruct (dlms_encrypt E k c l) as [[[ct ic]|] c3] eqn:En; intros [= _ <-]; apply (encrypt_mic _ _ _ _ _ En).
+  Qed.
+  Lemma step_mic k c o : use_protection k = true ->
+    match accepted_here k c o with
+    | Some ic => c_mic c < ic /\ c_mic (snd (step E k c o)) = ic
+    | None => c_mic (snd (step E k c o)) = c_mic c
+    end.
+  Proof.
+    intros Hp. destruct o as [m|b|]; cbn [accepted_here step].
+    - destruct (dlms_send E k c m) as [r c'] eqn:S. cbn [snd]. unfold dlms_send in S.
+      destruct (k_pre k && _); [injection S as _ <-; reflexivity|].
+      destruct (process_event (c_state c) (msg_kind m)) as [s'|]; [|injection S as _ <-; reflexivity].
+      rewrite Hp in S. destruct (protect E k (set_state c s') m) as [[m'|] c2] eqn:P; injection S as _ <-; apply (protect_mic _ _ _ _ _ P).
+    - destruct (dlms_next_event E k c b) as [[m|x] c'] eqn:R; cbn [snd].
+      + pose proof (accepted_counter _ _ _ _ _ R) as A. rewrite Hp in A. exact A.
+      + apply refusal_preserves in R. subst. reflexivity.
+    - destruct (dlms_hls_reply E k c) as [r c'] eqn:S. cbn [snd]. unfold dlms_hls_reply in S.
+      repeat match type of S with (match ?x with _ => _ end) = _ => destruct x; try (injection S as _ <-; reflexivity) end.
+  Qed.
+  Theorem accepted_counters_increase k ops : use_protection k = true -> forall c, increasing_from (c_mic c) (accepted k c ops).
+  Proof.
+    intros Hp. induction ops as [|o r IH]; intros c; cbn [accepted]; [exact I|].
+    pose proof (step_mic k c o Hp) as H. destruct (accepted_here k c o) as [ic|]; cbn [app increasing_from].
+    - destruct H as [H1 H2]. split; [exact H1|]. rewrite <- H2. apply IH.
+    - rewrite <- H. apply IH.
+  Qed.
+End C06.
+
+(* ================= C08 ================= *)
+Section C08.
+  Variable E : bytes -> bytes -> bytes.
+
+  (* the reply to the meter's challenge: SC || counter || GMAC over SC || AK || meter challenge under the client's nonce *)
+  Theorem hls_reply_is_standard k c b c' : dlms_hls_reply E k c = (Ok b, c') ->
+    exists ek ak ch, truthy_key (k_ek k) = Some ek /\ truthy_key (k_ak k) = Some ak /\ truthy (c_mchallenge c) = Some ch /\
+      c_auth c = Some 5 /\ length (k_title k) = 8%nat /\ c_cic c < 2 ^ 32 /\
+      b = [k_suite k + 16] ++ be_bytes 4 (c_cic c) ++
+          firstn 12 (gcm_tag (E ek) (k_title k ++ be_bytes 4 (c_cic c)) ((k_suite k + 16) :: ak ++ ch) []) /\
+      c_cic c' = c_cic c + 1.
+  Proof.
+    unfold dlms_hls_reply. destruct (truthy (c_mchallenge c)) as [ch|]; [|discriminate].
+    destruct (truthy_key (k_ek k)) as [ek|]; [|discriminate]. destruct (truthy_key (k_ak k)) as [ak|]; [|discriminate].
+    destruct (c_auth c) as [[|p]|]; try discriminate.
+    repeat (destruct p as [p|p|]; try discriminate).
+    unfold sec_gmac. cbn [sc_encrypted sc_suite].
+    destruct (Nat.eqb (length (k_title k)) 8) eqn:T; [|discriminate]. cbn [negb].
+    unfold to_bytes_be at 1. destruct (c_cic c <? 256 ^ N.of_nat 4) eqn:I; [|discriminate]. cbn [bind].
+    destruct (validate_key (k_suite k) ek) as [[]|]; [|discriminate]. cbn [bind].
+    destruct (validate_key (k_suite k) ak) as [[]|]; [|discriminate]. cbn [bind].
+    unfold sc_to_bytes. cbn [sc_to_byte]. rewrite !N.add_0_r.
+    destruct (to_bytes_be 1 (k_suite k + 16)) as [sb|] eqn:S1; [|discriminate]. cbn [bind].
+    unfold to_bytes_be. rewrite I. cbn [bind]. intros [= <- <-].
+    exists ek, ak, ch. repeat split; try reflexivity.
+    - apply Nat.eqb_eq. exact T.
+    - apply N.ltb_lt in I. exact I.
+    - unfold to_bytes_be in S1. destruct (k_suite k + 16 <? 256 ^ N.of_nat 1) eqn:B; [|discriminate]. injection S1 as <-.
+      cbn [be_bytes app]. change (256 ^ N.of_nat 1) with 256 in B. apply N.ltb_lt in B. rewrite N.mod_small by exact B. reflexivity.
+  Qed.
+
+  (* what it means for the meter's answer to be valid *)
+  Lemma hls_proof_valid k c data : hls_proof E k c data = 0 ->
+    exists resp x ek ak mt g, parse_as_dlms_data data = Ok (PBytes resp) /\ sc_from_byte (hd 0 resp) = Ok x /\
+      truthy_key (k_ek k) = Some ek /\ truthy_key (k_ak k) = Some ak /\ truthy (c_mtitle c) = Some mt /\
+      sec_gmac E x mt (be_val (slice 1 5 resp)) ek ak (k_challenge k) = Ok g /\ lastn 12 resp = g.
+  Proof.
+    unfold hls_proof. destruct (parse_as_dlms_data data) as [[]|]; try discriminate.
+    destruct l as [|first rest]; [discriminate|]. destruct (sc_from_byte first) as [x|] eqn:S; [|discriminate].
+    destruct (truthy_key (k_ek k)) as [ek|]; [|discriminate]. destruct (truthy_key (k_ak k)) as [ak|]; [|discriminate].
+    destruct (truthy (c_mtitle c)) as [mt|]; [|discriminate]. destruct (truthy (Some (k_challenge k))) as [ch|] eqn:C; [|discriminate].
+    assert (ch = k_challenge k) by (unfold truthy in C; destruct (k_challenge k); [discriminate|congruence]). subst ch.
+    destruct (sec_gmac _ _ _ _ _ _ _) as [g|e] eqn:G; [|destruct (e =? ECipher); discriminate].
+    destruct (list_eqb (lastn 12 (first :: rest)) g) eqn:L; [|discriminate]. intros _. apply list_eqb_eq in L.
+    exists (first :: rest), x, ek, ak, mt, g. repeat split; try assumption; reflexivity.
+  Qed.
+
+  (* the state machine around the HLS exchange, over the generated table *)
+  Definition chk_hls_recv (kind : N) : bool :=
+    forall_bool (fun pre => forall_bool (fun a => forall_bool (fun b => forall_below 4 (fun p =>
+      match assoc_recv pre 10 (Build_ev kind a b p) with
+      | (Ok tt, s') => negb (s' =? 2) || ((kind =? 15) && a && (p =? 0))
+      | _ => true
+      end)))).
+  Lemma chk_hls_recv_ok : forall_below 29 chk_hls_recv = true. Proof. vm_compute. reflexivity. Qed.
+  Lemma recv_unknown_kind pre s a b p : assoc_recv pre s (Build_ev 99 a b p) = (Err EProto, s).
+  Proof.
+    unfold assoc_recv, assoc_recv_raw. cbn [e_kind]. rewrite andb_false_r.
+    assert (H : process_event s 99 = Err EProto).
+    { unfold process_event. assert (G : forall t, forallb (fun e => negb (snd (fst e) =? 99)) t = true -> assoc2 s 99 t = None).
+      { induction t as [|[[s0 k0] v] t IH]; [reflexivity|]. cbn [forallb fst snd assoc2]. intros H. apply andb_prop in H as [H1 H2].
+        apply negb_true_iff in H1. rewrite N.eqb_sym in H1. rewrite H1, andb_false_r. apply IH. exact H2. }
+      rewrite G; [reflexivity|vm_compute; reflexivity]. }
+    rewrite H. reflexivity.
+  Qed.
+  Lemma ready_from_awaiting_result pre ev s' : proof ev < 4 -> e_kind ev < 29 \/ e_kind ev = 99 ->
+    assoc_recv pre 10 ev = (Ok tt, s') -> s' = 2 -> e_kind ev = 15 /\ a_flag ev = true /\ proof ev = 0.
+  Proof.
+    intros Hp Hk H ->. destruct ev as [kind a b p]. cbn [e_kind a_flag proof] in *.
+    destruct Hk as [Hk | ->]; [|rewrite recv_unknown_kind in H; discriminate].
+    pose proof (forall_below_spec 29 _ chk_hls_recv_ok kind Hk) as C. unfold chk_hls_recv in C.
+    pose proof (forall_bool_spec _ (forall_bool_spec _ (forall_bool_spec _ C pre) a) b) as C2. cbv beta in C2.
+    pose proof (forall_below_spec 4 _ C2 p Hp) as C3. cbv beta in C3. rewrite H in C3. cbn [N.eqb Pos.eqb negb orb] in C3.
+    apply andb_prop in C3 as [C3 P0]. apply andb_prop in C3 as [K A]. apply N.eqb_eq in K, P0. subst. repeat split.
+  Qed.
+  Lemma apdu_kind_bound a : apdu_kind a < 29 \/ apdu_kind a = 99.
+  Proof. destruct a; cbn; (left; lia) || (right; reflexivity). Qed.
+  Lemma hls_proof_bound k c d : hls_proof E k c d < 4.
+  Proof.
+    unfold hls_proof. repeat match goal with |- context [match ?x with _ => _ end] => destruct x end; lia.
+  Qed.
+
+  (* the association becomes ready on the meter's answer only if that answer is an ACTION response with status success whose data
+     carries the GMAC a holder of both keys computes over the client's challenge under the meter's nonce *)
+  Theorem ready_only_if_meter_proves_key_knowledge k c buf m c' :
+    c_state c = 10 -> dlms_next_event E k c buf = (Ok m, c') -> c_state c' = 2 ->
+    exists data iid resp x ek ak mt g,
+      m = MX (ActionResponseNormalWithData 0 data iid) /\
+      parse_as_dlms_data data = Ok (PBytes resp) /\ sc_from_byte (hd 0 resp) = Ok x /\
+      truthy_key (k_ek k) = Some ek /\ truthy_key (k_ak k) = Some ak /\ truthy (c_mtitle c') = Some mt /\
+      sec_gmac E x mt (be_val (slice 1 5 resp)) ek ak (k_challenge k) = Ok g /\ lastn 12 resp = g.
+  Proof.
+    intros Hs H Hr. unfold dlms_next_event in H. destruct (dlms_next_event_raw E k c buf) as [[m1 c1]|x] eqn:R; [|discriminate].
+    injection H as <- <-. unfold dlms_next_event_raw in R. destruct (msg_from_bytes buf) as [m0|]; [|discriminate]. cbn [bind] in R.
+    set (c0 := match m0 with MAare e => set_meter_info c (e_title e) (e_auth e) (e_value e) | _ => c end) in R.
+    assert (S0 : c_state c0 = 10) by (unfold c0; destruct m0; exact Hs).
+    destruct (if use_protection k then unprotect E k c0 m0 else Ok (m0, c0)) as [[m2 c2]|] eqn:U; [|discriminate]. cbn [bind] in R.
+    assert (S2 : c_state c2 = 10 /\ c_mtitle c2 = c_mtitle c0).
+    { destruct (use_protection k); [|injection U as _ <-; split; [exact S0|reflexivity]].
+      unfold unprotect, check_counter in U. destruct m0 as [a|q|e|r|r]; try discriminate.
+      - destruct a; try discriminate. destruct (counter <=? c_mic c0); [discriminate|]. cbn [bind] in U.
+        destruct (dlms_decrypt _ _ _ _); [|discriminate]. cbn [bind] in U. destruct (msg_from_bytes _); [|discriminate]. injection U as _ <-. split; [exact S0|reflexivity].
+      - destruct (e_user e) as [[]|]; try (injection U as _ <-; split; [exact S0|reflexivity]).
+        destruct (counter <=? c_mic c0); [discriminate|]. cbn [bind] in U.
+        destruct (dlms_decrypt _ _ _ _); [|discriminate]. cbn [bind] in U. destruct (initiate_response_from_bytes _); [|discriminate]. injection U as _ <-. split; [exact S0|reflexivity].
+      - destruct (r_user r) as [[]|]; try (injection U as _ <-; split; [exact S0|reflexivity]).
+        destruct (counter <=? c_mic c0); [discriminate|]. cbn [bind] in U.
+        destruct (dlms_decrypt _ _ _ _); [|discriminate]. cbn [bind] in U. destruct (initiate_response_from_bytes _); [|discriminate]. injection U as _ <-. split; [exact S0|reflexivity]. }
+    destruct S2 as [S2 T2]. rewrite S2 in R.
+    destruct (assoc_recv (k_pre k) 10 (msg_event E k c2 m2)) as [[[]|] s'] eqn:A; [|discriminate]. injection R as <- <-.
+    assert (Hs' : s' = 2).
+    { destruct m2 as [a|q|e|r|r]; try exact Hr. destruct (e_user e) as [[]|]; exact Hr. }
+    assert (Hev : proof (msg_event E k c2 m2) < 4 /\ (e_kind (msg_event E k c2 m2) < 29 \/ e_kind (msg_event E k c2 m2) = 99)).
+    { destruct m2 as [a|q|e|r|r]; cbn; try (split; [lia|left; lia]).
+      destruct a; cbn; try (split; [lia|(left; lia) || (right; reflexivity)]). split; [apply hls_proof_bound|left; lia]. }
+    destruct Hev as [Hp Hk]. destruct (ready_from_awaiting_result _ _ _ Hp Hk A Hs') as (K15 & Af & P0).
+    destruct m2 as [a|q|e|r|r]; try (cbn in K15; discriminate).
+    destruct a; try (cbn in K15; discriminate). cbn [msg_event a_flag proof] in Af, P0. apply N.eqb_eq in Af. subst status.
+    destruct (hls_proof_valid _ _ _ P0) as (resp & x & ek & ak & mt & g & Q1 & Q2 & Q3 & Q4 & Q5 & Q6 & Q7).
+    exists data, i, resp, x, ek, ak, mt, g. cbn [c_mtitle set_state]. repeat split; assumption.
+  Qed.
+
+  (* no service request can be sent while the exchange is unfinished: in the two waiting states nothing at all can be sent, and
+     while the reply is due only an ACTION request (the reply itself) *)
+  Definition chk_hls_send (kind : N) : bool :=
+    forall_bool (fun pre =>
+      is_ok (fst (assoc_send pre 10 (Build_ev kind false false 0))) || is_ok (fst (assoc_send pre 11 (Build_ev kind false false 0)))
+      || (is_ok (fst (assoc_send pre 9 (Build_ev kind false false 0))) && negb (kind =? 7))) .
+  Lemma chk_hls_send_ok : forallb (fun kind => negb (chk_hls_send kind)) [4; 5; 6; 7; 26; 99] = true. Proof. vm_compute. reflexivity. Qed.
+
+  Definition is_service_request (a : apdu) : bool :=
+    match a with GetRequestNormal _ _ _ | GetRequestNext _ _ | SetRequestNormal _ _ _ | ActionRequestNormal _ _ _ => true | _ => false end.
+  Definition chk_req (kind : N) : bool :=
+    negb (is_ok (process_event 10 kind)) && negb (is_ok (process_event 11 kind)) && (negb (is_ok (process_event 9 kind)) || (kind =? 7)).
+  Lemma chk_req_ok : forallb chk_req [4; 5; 6; 7] = true. Proof. vm_compute. reflexivity. Qed.
+  Theorem no_service_request_during_hls k c a : is_service_request a = true ->
+    (c_state c = 10 \/ c_state c = 11 \/ (c_state c = 9 /\ apdu_kind a <> 7)) ->
+    exists e, dlms_send E k c (MX a) = (Err e, c).
+  Proof.
+    intros Ha Hs. pose proof chk_req_ok as C. cbn [forallb] in C. repeat (apply andb_prop in C as [? C]).
+    assert (K : chk_req (apdu_kind a) = true) by (destruct a; try discriminate Ha; assumption).
+    unfold chk_req in K. apply andb_prop in K as [K K9]. apply andb_prop in K as [K10 K11].
+    unfold dlms_send. cbn [msg_kind].
+    assert (Hk : (apdu_kind a =? E_RLRQ) || (apdu_kind a =? E_AARQ) = false) by (destruct a; try discriminate Ha; reflexivity).
+    rewrite Hk, andb_false_r.
+    destruct Hs as [-> | [-> | [-> Hn]]].
+    - destruct (process_event 10 (apdu_kind a)); [discriminate|]. eexists. reflexivity.
+    - destruct (process_event 11 (apdu_kind a)); [discriminate|]. eexists. reflexivity.
+    - apply orb_prop in K9 as [K9|K9]; [|apply N.eqb_eq in K9; contradiction].
+      destruct (process_event 9 (apdu_kind a)); [discriminate|]. eexists. reflexivity.
+  Qed.
+End C08.
